@@ -629,6 +629,9 @@ func (r *Run) Check() (f *wx.Failure) {
 		}
 	}()
 	or := r.cfg.Oracles
+	// All oracle groups are evaluated; a failure of the property this scenario belongs to is reported in preference
+	// to an earlier one of another property (several oracles usually see the same defect).
+	var found []*wx.Failure
 	if or&OInv != 0 && !noInv {
 		if err := r.w.VerifCheckInvariants(); err != nil {
 			msg := err.Error()
@@ -641,21 +644,48 @@ func (r *Run) Check() (f *wx.Failure) {
 			case strings.HasPrefix(msg, "node "):
 				prop = "C06"
 			}
-			return r.fail(prop, "invariant:"+invClass(msg), "internal structure corrupted: "+msg)
+			found = append(found, r.fail(prop, "invariant:"+invClass(msg), "internal structure corrupted: "+msg))
 		}
 	}
 	if or&OState != 0 {
-		if f := r.checkState(); f != nil {
-			return f
+		if f := r.checkStateSafe(); f != nil {
+			found = append(found, f)
 		}
 	}
 	if or&OFilters != 0 {
-		if f := r.checkFilters(or&OIter != 0); f != nil {
+		if f := r.checkFiltersSafe(or&OIter != 0); f != nil {
+			found = append(found, f)
+		}
+	}
+	for _, f := range found {
+		if f.Prop == r.cfg.Prop {
 			return f
 		}
 	}
+	if len(found) > 0 {
+		return found[0]
+	}
 	return nil
 }
+
+func (r *Run) checkStateSafe() (f *wx.Failure) {
+	defer func() {
+		if x := recover(); x != nil {
+			f = r.fail("", "oracle-panic:"+panicClass(x), fmt.Sprintf("reading the world through the public API panicked: %v", x))
+		}
+	}()
+	return r.checkState()
+}
+
+func (r *Run) checkFiltersSafe(deep bool) (f *wx.Failure) {
+	defer func() {
+		if x := recover(); x != nil {
+			f = r.fail("", "oracle-panic:"+panicClass(x), fmt.Sprintf("querying the world through the public API panicked: %v", x))
+		}
+	}()
+	return r.checkFilters(deep)
+}
+
 
 // noInv disables the structural invariant oracle (VERIF_NO_INV=1), to demonstrate that defects are also
 // caught through the public API alone.
